@@ -1240,10 +1240,13 @@ pub struct GenCfg {
     pub restricted: bool,
     pub retries: bool,
     pub no_effect: bool,
+    /// also inject the classes that refuse while the commit runs (C17's subject; C18 histories
+    /// must consist of whole commits only)
+    pub commit_time_failures: bool,
 }
 
-pub const CFG_C17: GenCfg = GenCfg { fail_pct: 45, dry_pct: 20, restricted: true, retries: true, no_effect: true };
-pub const CFG_C18: GenCfg = GenCfg { fail_pct: 6, dry_pct: 0, restricted: false, retries: false, no_effect: false };
+pub const CFG_C17: GenCfg = GenCfg { fail_pct: 45, dry_pct: 20, restricted: true, retries: true, no_effect: true, commit_time_failures: true };
+pub const CFG_C18: GenCfg = GenCfg { fail_pct: 6, dry_pct: 0, restricted: false, retries: false, no_effect: false, commit_time_failures: false };
 
 pub fn gen_stmt(rng: &mut Rng, g: &mut Gen, w: &World, prev: Option<&Stmt>, cfg: &GenCfg) -> Stmt {
     if let (Some(p), true) = (prev, cfg.retries) {
@@ -1266,6 +1269,9 @@ pub fn gen_stmt(rng: &mut Rng, g: &mut Gen, w: &World, prev: Option<&Stmt>, cfg:
     };
     let mut fail_class = if rng.chance(cfg.fail_pct, 100) { Some(*rng.pick(&FAIL_CLASSES)) } else { None };
     if !cfg.restricted && matches!(fail_class, Some("authz_plan") | Some("authz_gate")) {
+        fail_class = None;
+    }
+    if !cfg.commit_time_failures && matches!(fail_class, Some("key_conflict_commit") | Some("tuple_conflict_commit") | Some("cross_space_ref_commit")) {
         fail_class = None;
     }
     let restricted = cfg.restricted && (matches!(fail_class, Some("authz_plan") | Some("authz_gate")) || rng.chance(1, 25));
@@ -1306,8 +1312,13 @@ pub fn gen_stmt(rng: &mut Rng, g: &mut Gen, w: &World, prev: Option<&Stmt>, cfg:
                 _ => clauses.len() / 2,
             };
             clauses.insert(at, last);
-            for (i, c) in fc.into_iter().enumerate() {
-                let at = b.rng.usize(clauses.len() + 1).min(i + clauses.len());
+            for c in fc {
+                // keep the failing clause where the position label says it is
+                let at = match pos {
+                    "first" | "only" => 1 + b.rng.usize(clauses.len()),
+                    "last" => b.rng.usize(clauses.len()),
+                    _ => b.rng.usize(clauses.len() + 1),
+                };
                 clauses.insert(at, c);
             }
             fail = Some((class, pos));
